@@ -624,9 +624,11 @@ def gen_rejoin_trial(rng):
             if rng.random() < 0.8: behs[k]['cskip'] = sorted(rng.sample(range(8), rng.randint(1, 4)))
             if rng.random() < 0.35 or 'cskip' not in behs[k]: behs[k]['cdnone'] = sorted(rng.sample(range(8), rng.randint(1, 2)))
     ups.append(list(range(1, b + 1)))
-    jb = rng.choice([{'kind': 'pass'}, {'kind': 'sum', 'name': 'main'}, {'kind': 'pass', 'skip': [rng.randrange(5)]}])
+    jb = rng.choice([{'kind': 'pass'}, {'kind': 'sum', 'name': 'main'}, {'kind': 'pass', 'skip': [rng.randrange(5)]},
+                     {'kind': 'sum', 'name': 'main', 'skip': sorted({rng.randrange(6), rng.randrange(6)})}, {'kind': 'pass', 'defer': True},
+                     {'kind': 'add', 'name': '_xj', 'dnone': [rng.randrange(5)]}, {'kind': 'add', 'name': 'xj', 'empty': [rng.randrange(5)]}])
     behs.append(jb)
-    if rng.random() < 0.6:
+    if rng.random() < 0.6:      # a sink below the join (C03_net_rejoin_sink_composition): the join publishes under the ids it was handed, the sink throttles it
         ups.append([b + 1]); behs.append({'kind': 'pass'})
     topo = {'family': 'teerejoin', 'ups': ups, 'behs': behs}
     L = len(ups)
@@ -658,9 +660,12 @@ def gen_rejoin_trial(rng):
 
 
 def rejoin_reference(topo, nsrc):
-    """sets handed to the join (C03_net_rejoin_common_ids, `rejoinSpecSkip`): for every surviving source frame of which EVERY branch makes a dict - the
-    common frames - under the source's id, the union over the branches (in the join's source order) of what the branch makes of it; a frame some branch
-    drops (None / callable -> None) is in no set at all"""
+    """-> (J, sets handed to the join, sets handed to the sink below it or None).
+    Join (C03_net_rejoin_common_ids, `rejoinSpecSkip`): for every surviving source frame of which EVERY branch makes a dict - the common frames - under
+    the source's id, the union over the branches (in the join's source order) of what the branch makes of it; a frame some branch drops (None / callable ->
+    None) is in no set at all.  Sink (C03_net_rejoin_sink_composition, `throughFrom proc J 0 (rejoinSpecSkip ..)`): the join's process function applied to
+    those sets in order (its n-th call on the n-th common frame), visible topics, under the id of the set it was computed from; a None of the join (directly or
+    as the value of its callable) drops that id for the sink"""
     from openfilter.filter_runtime.frame import Frame
     procs = [mk_proc(b, i) for i, b in enumerate(topo['behs'])]
     def norm(r):
@@ -674,26 +679,44 @@ def rejoin_reference(topo, nsrc):
         r = norm(procs[0]({}, n, 0))
         if r is None: continue
         outs.append((k, r)); k += 1
-    ref = []
+    common = []
     for n, (k, d) in enumerate(outs):
         vis = {t: f for t, f in d.items() if not t.startswith('_')}
         cur = []
         for br in topo['ups'][J]:
             r = norm(procs[br](vis, n, 0))
             if r is None: cur = None; break          # a branch skips this frame: not a common frame
-            cur += [[t, f.data['c']] for t, f in r.items() if not t.startswith('_')]
-        if cur is not None: ref.append([k, cur])
-    return J, ref
+            cur += [(t, f) for t, f in r.items() if not t.startswith('_')]
+        if cur is not None: common.append((k, cur))
+    ref = [[k, [[t, f.data['c']] for t, f in cur]] for k, cur in common]
+    sink = None
+    sk = next((i for i, u in enumerate(topo['ups']) if u == [J]), None)
+    if sk is not None:
+        sink = []
+        for n, (k, cur) in enumerate(common):
+            r = norm(procs[J](dict(cur), n, 0))
+            if r is not None: sink.append([k, [[t, f.data['c']] for t, f in r.items() if not t.startswith('_')]])
+    return J, ref, sink
 
 
 def rejoin_oracle(trial, obs, handed):
+    """'net-rejoin-composition': what the join's process() was handed so far is not a prefix of the common frames; or what the sink below the join was handed
+    is not a prefix of the join's process function threaded through the common frames (ids handed on unchanged)"""
     nsrc = sum(1 for idx, i, ident, fr in handed if i == 0)
-    J, ref = rejoin_reference(trial['topo'], nsrc)
+    J, ref, sink = rejoin_reference(trial['topo'], nsrc)
     got = [[ident, [[t, c] for t, c, _ in fr]] for idx, j, ident, fr in handed if j == J]
     if got != ref[:len(got)]:
         k = next((a for a, (x, y) in enumerate(zip(got, ref)) if x != y), min(len(got), len(ref)))
         return [('net-rejoin-composition', f"join {J}: set #{k} handed to process() is {got[k] if k < len(got) else None}, the #{k}-th source frame that every branch "
                  f"makes a dict of gives {ref[k] if k < len(ref) else None} (handed so far {len(got)}, common frames {len(ref)} of {nsrc} source frames)")]
+    if sink is not None:
+        sk = next(i for i, u in enumerate(trial['topo']['ups']) if u == [J])
+        gs = [[ident, [[t, c] for t, c, _ in fr]] for idx, j, ident, fr in handed if j == sk]
+        if gs != sink[:len(gs)]:
+            k = next((a for a, (x, y) in enumerate(zip(gs, sink)) if x != y), min(len(gs), len(sink)))
+            return [('net-rejoin-composition', f"sink {sk} below join {J}: set #{k} handed to process() is {gs[k] if k < len(gs) else None}, the join's process function "
+                     f"threaded through the common frames gives {sink[k] if k < len(sink) else None} (handed so far {len(gs)}, the join was handed {len(got)} of "
+                     f"{len(ref)} common frames)")]
     return []
 
 
@@ -714,6 +737,60 @@ def rejoin_loss_controls(trial, obs, handed):
         dup = handed[:at[1] + 1] + [handed[at[1]]] + handed[at[1] + 1:]
         out['duplicate'] = [k for k, _ in rejoin_oracle(trial, obs, dup)]
     return out
+
+
+def rejoin_sink_controls(trial, obs, handed):
+    """negative controls of the SINK part of the rejoin oracle on a run of the REAL classes (a trial with a sink below the join): the same observation with
+    (a) one set removed from what the sink was handed (a loss below the join), (b) a set handed to the sink under the id of the NEXT common frame (the id is
+    not handed on unchanged), (c) a set handed to the sink twice, (d) the set the join dropped (returned None for) handed to the sink all the same - under the
+    id of that common frame, with the contents of its neighbour.  Returns the oracle keys per control: each must be ['net-rejoin-composition']."""
+    J = next(i for i, u in enumerate(trial['topo']['ups']) if len(u) > 1)
+    sk = next(i for i, u in enumerate(trial['topo']['ups']) if u == [J])
+    at = [a for a, hd in enumerate(handed) if hd[1] == sk]
+    out = {}
+    if len(at) >= 3:
+        lost = handed[:at[1]] + handed[at[1] + 1:]
+        out['sink-loss'] = [k for k, _ in rejoin_oracle(trial, obs, lost)]
+        idx, j, ident, fr = handed[at[1]]
+        wrong = list(handed); wrong[at[1]] = (idx, j, handed[at[2]][2], fr)
+        out['sink-wrong-id'] = [k for k, _ in rejoin_oracle(trial, obs, wrong)]
+        dup = handed[:at[1] + 1] + [handed[at[1]]] + handed[at[1] + 1:]
+        out['sink-duplicate'] = [k for k, _ in rejoin_oracle(trial, obs, dup)]
+        nsrc = sum(1 for hd in handed if hd[1] == 0)
+        _, ref, sink = rejoin_reference(trial['topo'], nsrc)
+        dropped = [k for k, _ in ref if k not in [k2 for k2, _ in sink]]
+        sids = [handed[a][2] for a in at]
+        cand = [k for k in dropped if sids and k < sids[-1]]
+        if cand:
+            pos = next(a for a in at if handed[a][2] > cand[0])
+            idx, j, ident, fr = handed[pos]
+            extra = handed[:pos] + [(idx, j, cand[0], fr)] + handed[pos:]
+            out['sink-undropped'] = [k for k, _ in rejoin_oracle(trial, obs, extra)]
+    return out
+
+
+def rejoin_sink_witness():
+    """the fast-forward run of `rejoin_ffwd_witness` with a SINK below the join taking part in every round (the schedule `gSched` of OFProps/C03RejoinSink.lean):
+    branch 1 drops the source frames 2 .. 5 (content-keyed), branch 2 stalls with frame 2, is evicted by the source and fast-forwarded by the join to id 6; the
+    join sums its set and returns None for its THIRD set (= the common frame 6).  The join must be handed the common ids 0, 1, 6, 7, 8, ..., the sink the
+    sums of the remaining common frames under their ids 0, 1, 7, 8, ... - the join publishes under the ids it was handed, which jump from 1 to 6, and is
+    never fast-forwarded by its sink"""
+    topo = {'family': 'teerejoin', 'ups': [[], [0], [0], [1, 2], [3]],
+            'behs': [{'kind': 'src', 'topics': ['main']}, {'kind': 'rename', 'frm': 'main', 'to': 'b1', 'cskip': [2, 3, 4, 5]},
+                     {'kind': 'rename', 'frm': 'main', 'to': 'b2'}, {'kind': 'sum', 'name': 'main', 'skip': [2]}, {'kind': 'pass'}]}
+    evs, t = [], 1000
+    def rnd(nodes, t, nosend=()):
+        return [e for i in nodes for e in [{'k': 'recv', 'i': i}] + ([{'k': 'send', 'i': i, 't': t}] if i not in nosend else [])]
+    for _ in range(5):
+        t += 100; evs += rnd([0, 1, 2, 3, 4], t)
+    for _ in range(2):
+        t += 100; evs += rnd([0, 1, 2, 3, 4], t, nosend=(2,))      # branch 2 takes a frame and keeps it
+    t += 6000
+    for _ in range(8):
+        t += 100; evs += rnd([0, 1, 3, 4], t)                      # the source evicts branch 2 and runs ahead
+    for _ in range(6):
+        t += 100; evs += rnd([0, 1, 2, 3, 4], t)
+    return {'topo': topo, 'evs': evs}
 
 
 def rejoin_ffwd_witness():
